@@ -147,11 +147,147 @@ Section VacCommon.
   Lemma F_p2 k : S "s.p2" k = 0. Proof. apply (proj2 Hvac). Qed.
 End VacCommon.
 
-(* intermediate statements, proved in C10_vacuum_Bt.v and C10_vacuum_ode.v and assembled in C10_vacuum.v *)
+(* the two O(r^2) differential equations over the object state; every lemma takes
+   (O HD S VA V1 V2 Hadm HA H1 H2 Hcst VR HR Hsig Hvac Hode) *)
+Section VacOde.
+  Context {I : Type} (O : ops I) (HD : derivation O) (S VA V1 V2 : string -> I -> R).
+  Hypothesis Hadm : admissible S.
+  Hypothesis HA : stage O init_axis S VA.
+  Hypothesis H1 : stage O r1_diagnostics_h0 S V1 \/ stage O r1_diagnostics_hN S V1.
+  Hypothesis H2 : stage O calculate_r2_h0 S V2 \/ stage O calculate_r2_hN S V2.
+  Hypothesis Hcst : constants S.
+  Variable VR : string -> I -> R.
+  Hypothesis HR : stage O residual S VR.
+  Hypothesis Hsig : sigma_solved O S VR.
+  Hypothesis Hvac : vacuum_hyp S.
+  Hypothesis Hode : r2_solved V2.
+  Set Default Proof Using "All".
+  Notation Dv := (Dv O S).
+  Notation sG := (S "s.sG"). Notation spsi := (S "s.spsi"). Notation kap := (S "s.curvature").
+  Notation etabar := (S "s.etabar"). Notation X1c := (S "s.X1c"). Notation Y1s := (S "s.Y1s"). Notation Y1c := (S "s.Y1c").
+  Notation aGB := (S "s.abs_G0_over_B0"). Notation B0 := (S "s.B0").
+  Local Notation F_X1c := (C10_common.F_X1c O HD S VA V1 V2 Hadm HA H1 H2).
+  Local Notation F_G0 := (C10_common.F_G0 O HD S VA V1 V2 Hadm HA H1 H2).
+  Local Notation F_dldvp := (C10_common.F_dldvp O HD S VA V1 V2 Hadm HA H1 H2).
+  Local Notation F_absG0 := (C10_common.F_absG0 O HD S VA V1 V2 Hadm HA H1 H2).
+  Local Notation X1c_nz := (C10_common.X1c_nz O HD S VA V1 V2 Hadm HA H1 H2).
+  Local Notation F_Y1s := (C10_common.F_Y1s O HD S VA V1 V2 Hadm HA H1 H2).
+  Local Notation F_Y1c := (C10_common.F_Y1c O HD S VA V1 V2 Hadm HA H1 H2).
+  Local Notation F_dX1c := (C10_common.F_dX1c O HD S VA V1 V2 Hadm HA H1 H2).
+  Local Notation F_dY1s := (C10_common.F_dY1s O HD S VA V1 V2 Hadm HA H1 H2).
+  Local Notation F_dY1c := (C10_common.F_dY1c O HD S VA V1 V2 Hadm HA H1 H2).
+  Local Notation F_dX20 := (C10_common.F_dX20 O HD S VA V1 V2 Hadm HA H1 H2).
+  Local Notation F_dX2s := (C10_common.F_dX2s O HD S VA V1 V2 Hadm HA H1 H2).
+  Local Notation F_dX2c := (C10_common.F_dX2c O HD S VA V1 V2 Hadm HA H1 H2).
+  Local Notation F_dY20 := (C10_common.F_dY20 O HD S VA V1 V2 Hadm HA H1 H2).
+  Local Notation F_dY2s := (C10_common.F_dY2s O HD S VA V1 V2 Hadm HA H1 H2).
+  Local Notation F_dY2c := (C10_common.F_dY2c O HD S VA V1 V2 Hadm HA H1 H2).
+  Local Notation F_dZ20 := (C10_common.F_dZ20 O HD S VA V1 V2 Hadm HA H1 H2).
+  Local Notation F_dZ2s := (C10_common.F_dZ2s O HD S VA V1 V2 Hadm HA H1 H2).
+  Local Notation F_dZ2c := (C10_common.F_dZ2c O HD S VA V1 V2 Hadm HA H1 H2).
+  Local Notation F_dkap := (C10_common.F_dkap O HD S VA V1 V2 Hadm HA H1 H2).
+  Local Notation F_dtau := (C10_common.F_dtau O HD S VA V1 V2 Hadm HA H1 H2).
+  Local Notation F_d2X1c := (C10_common.F_d2X1c O HD S VA V1 V2 Hadm HA H1 H2).
+  Local Notation F_d2Y1s := (C10_common.F_d2Y1s O HD S VA V1 V2 Hadm HA H1 H2).
+  Local Notation F_d2Y1c := (C10_common.F_d2Y1c O HD S VA V1 V2 Hadm HA H1 H2).
+  Local Notation F_Y2s := (C10_common.F_Y2s O HD S VA V1 V2 Hadm HA H1 H2).
+  Local Notation F_Y2c := (C10_common.F_Y2c O HD S VA V1 V2 Hadm HA H1 H2).
+  Local Notation sGspsi_const := (C10_common.sGspsi_const O HD S VA V1 V2 Hadm HA H1 H2).
+  Local Notation R_XY := (C10_common.R_XY O HD S VA V1 V2 Hadm HA H1 H2).
+  Local Notation R_dXY := (C10_common.R_dXY O HD S VA V1 V2 Hadm HA H1 H2).
+  Local Notation R_d2XY := (C10_common.R_d2XY O HD S VA V1 V2 Hadm HA H1 H2).
+  Local Notation R_kX := (C10_common.R_kX O HD S VA V1 V2 Hadm HA H1 H2).
+  Local Notation R_dkX := (C10_common.R_dkX O HD S VA V1 V2 Hadm HA H1 H2).
+  Local Notation S_Y1s := (C10_common.S_Y1s O HD S VA V1 V2 Hadm HA H1 H2).
+  Local Notation S_dY1s := (C10_common.S_dY1s O HD S VA V1 V2 Hadm HA H1 H2).
+  Local Notation S_d2Y1s := (C10_common.S_d2Y1s O HD S VA V1 V2 Hadm HA H1 H2).
+  Local Notation S_kap := (C10_common.S_kap O HD S VA V1 V2 Hadm HA H1 H2).
+  Local Notation S_dkap := (C10_common.S_dkap O HD S VA V1 V2 Hadm HA H1 H2).
+  Local Notation R_Y2s := (C10_common.R_Y2s O HD S VA V1 V2 Hadm HA H1 H2).
+  Local Notation R_Y2c := (C10_common.R_Y2c O HD S VA V1 V2 Hadm HA H1 H2).
+  Local Notation R_dY2s := (C10_common.R_dY2s O HD S VA V1 V2 Hadm HA H1 H2).
+  Local Notation R_dY2c := (C10_common.R_dY2c O HD S VA V1 V2 Hadm HA H1 H2).
+  Local Notation sG_nz := (C10_common.sG_nz O HD S VA V1 V2 Hadm HA H1 H2).
+  Local Notation spsi_nz := (C10_common.spsi_nz O HD S VA V1 V2 Hadm HA H1 H2).
+  Ltac dv_push := dv_push_ O HD.
+  Ltac both tac := destruct H2 as [H|H]; [tac calculate_r2_h0 H | tac calculate_r2_hN H].
+  Ltac nz := repeat split; first [apply X1c_nz | apply sG_nz | apply spsi_nz | apply (adm_eta S Hadm) | apply (adm_kappa S Hadm)
+                                 | apply Rgt_not_eq, (adm_B0 S Hadm) | apply Rgt_not_eq, (adm_lp S Hadm) | lra].
+  Ltac fin := rewrite ?F_d2X1c, ?F_d2Y1s, ?F_d2Y1c, ?F_dX1c, ?F_dY1s, ?F_dY1c, ?F_dkap, ?F_dtau; unfold Rdiv; ring.
+  Notation tau := (S "s.torsion"). Notation iotaN := (S "s.iotaN").
+  Notation dX1c := (S "s.d_X1c_d_varphi"). Notation dY1s := (S "s.d_Y1s_d_varphi"). Notation dY1c := (S "s.d_Y1c_d_varphi").
+  Notation d2X1c := (S "s.d2_X1c_d_varphi2"). Notation d2Y1s := (S "s.d2_Y1s_d_varphi2"). Notation d2Y1c := (S "s.d2_Y1c_d_varphi2").
+  Local Notation F_p2 := (F_p2 O HD S VA V1 V2 Hadm HA H1 H2 Hcst VR HR Hsig Hvac).
+  (* ---- the two O(r^2) differential equations (the residuals of the dense solve), over the object state ---- *)
+  Notation X20 := (S "s.X20"). Notation Y20 := (S "s.Y20"). Notation X2s := (S "s.X2s"). Notation X2c := (S "s.X2c").
+  Notation Y2s := (S "s.Y2s"). Notation Y2c := (S "s.Y2c"). Notation Z20 := (S "s.Z20"). Notation Z2s := (S "s.Z2s"). Notation Z2c := (S "s.Z2c").
+  Notation I2 := (S "s.I2"). Notation beta := (S "s.beta_1s").
+  Definition fX0_ (l : R) k := S "s.d_X20_d_varphi" k - tau k * l * Y20 k + kap k * l * Z20 k
+      - 4 * sG k * spsi k * l * (Y2c k * Z2s k - Y2s k * Z2c k)
+      - spsi k * (I2 k / B0 k) * (kap k * sG k * spsi k / 2 - 2 * Y20 k) * l + l * beta k * Y1c k / 2.
+  Definition fXs_ (l : R) k := S "s.d_X2s_d_varphi" k - 2 * iotaN k * X2c k - tau k * l * Y2s k + kap k * l * Z2s k
+      - 4 * spsi k * sG k * l * (Y2c k * Z20 k - Y20 k * Z2c k)
+      - spsi k * (I2 k / B0 k) * (kap k * spsi k * sG k / 2 - 2 * Y2s k) * l - l * beta k * Y1s k / 2.
+  Definition fXc_ (l : R) k := S "s.d_X2c_d_varphi" k + 2 * iotaN k * X2s k - tau k * l * Y2c k + kap k * l * Z2c k
+      - 4 * spsi k * sG k * l * (Y20 k * Z2s k - Y2s k * Z20 k)
+      - spsi k * (I2 k / B0 k) * (kap k * sG k * spsi k / 2 - 2 * Y2c k) * l - l * beta k * Y1c k / 2.
+  Definition fY0_ (l : R) k := S "s.d_Y20_d_varphi" k + tau k * l * X20 k
+      - 4 * spsi k * sG k * l * (X2s k * Z2c k - X2c k * Z2s k)
+      - spsi k * (I2 k / B0 k) * (- kap k * X1c k * X1c k / 2 + 2 * X20 k) * l - l * beta k * X1c k / 2.
+  Definition fYs_ (l : R) k := S "s.d_Y2s_d_varphi" k - 2 * iotaN k * Y2c k + tau k * l * X2s k
+      - 4 * spsi k * sG k * l * (X20 k * Z2c k - X2c k * Z20 k)
+      - 2 * spsi k * (I2 k / B0 k) * X2s k * l.
+  Definition fYc_ (l : R) k := S "s.d_Y2c_d_varphi" k + 2 * iotaN k * Y2s k + tau k * l * X2c k
+      - 4 * spsi k * sG k * l * (X2s k * Z20 k - X20 k * Z2s k)
+      - spsi k * (I2 k / B0 k) * (- kap k * X1c k * X1c k / 2 + 2 * X2c k) * l + l * beta k * X1c k / 2.
+  Definition odeE1 l k := X1c k * fXs_ l k - Y1s k * fY0_ l k + Y1c k * fYs_ l k - Y1s k * fYc_ l k.
+  Definition odeE2 l k := - X1c k * fX0_ l k + X1c k * fXc_ l k - Y1c k * fY0_ l k + Y1s k * fYs_ l k + Y1c k * fYc_ l k.
+  Ltac to_model H :=
+    repeat match goal with
+           | |- context [S (String ?a ?b)] => rewrite <- (st_agree _ _ _ _ H (String a b) eq_refl)
+           end.
+  Ltac ode_prep P H eqn :=
+    unfold odeE1, odeE2, fX0_, fXs_, fXc_, fY0_, fYs_, fYc_; to_model H;
+    unfold_fixes O P (st_fix _ _ _ _ H)
+      (eqn :: "s.d_X20_d_varphi" :: "s.d_X2s_d_varphi" :: "s.d_X2c_d_varphi" :: "s.d_Y20_d_varphi" :: "s.d_Y2s_d_varphi" :: "s.d_Y2c_d_varphi"
+       :: "fX0_from_X20" :: "fX0_from_Y20" :: "fX0_inhomogeneous"
+       :: "fXs_from_X20" :: "fXs_from_Y20" :: "fXs_inhomogeneous"
+       :: "fXc_from_X20" :: "fXc_from_Y20" :: "fXc_inhomogeneous"
+       :: "fY0_from_X20" :: "fY0_from_Y20" :: "fY0_inhomogeneous"
+       :: "fYs_from_X20" :: "fYs_from_Y20" :: "fYs_inhomogeneous"
+       :: "fYc_from_X20" :: "fYc_from_Y20" :: "fYc_inhomogeneous"
+       :: "s.X20" :: "X20" :: "s.Y20" :: "Y20" :: "s.Y2s" :: "Y2s" :: "s.Y2c" :: "Y2c" :: "X20" :: "Y20"
+       :: "s.X2s" :: "s.X2c" :: "s.Z20" :: "s.Z2s" :: "s.Z2c" :: "s.beta_1s"
+       :: "X1c" :: "Y1s" :: "Y1c" :: "torsion" :: "curvature" :: "iota_N" :: "spsi" :: "sG"
+       :: "I2_over_B0" :: "abs_G0_over_B0" :: "B0_over_abs_G0" :: nil)%list;
+    rewrite !(D_add O (der_lin O HD)); qsimp; unfold Rdiv; ring.
+  Lemma R_ode1' k : odeE1 (/ (B0 k / Rabs (S "s.G0" k))) k = 0.
+  Proof. destruct Hode as [Ho1 Ho2]. both ltac:(fun P H => rewrite <- (Ho1 k); symmetry; ode_prep P H "solve1_eq0"). Qed.
+  Lemma R_ode2' k : odeE2 (/ (B0 k / Rabs (S "s.G0" k))) k = 0.
+  Proof. destruct Hode as [Ho1 Ho2]. both ltac:(fun P H => rewrite <- (Ho2 k); symmetry; ode_prep P H "solve1_eq1"). Qed.
+  Lemma lp_is_aGB k : / (B0 k / Rabs (S "s.G0" k)) = aGB k.
+  Proof. rewrite F_absG0. field. nz. Qed.
+  Lemma R_ode1 k : odeE1 (aGB k) k = 0.
+  Proof. rewrite <- lp_is_aGB. apply R_ode1'. Qed.
+  Lemma R_ode2 k : odeE2 (aGB k) k = 0.
+  Proof. rewrite <- lp_is_aGB. apply R_ode2'. Qed.
+  Lemma F_beta k : beta k = 0.
+  Proof.
+    both ltac:(fun P H => rewrite <- (st_agree _ _ _ _ H "s.beta_1s" eq_refl);
+      unfold_fixes O P (st_fix _ _ _ _ H) ("s.beta_1s" :: "beta_1s" :: "p2" :: nil)%list; to_state H; rewrite F_p2; unfold Rdiv; ring).
+  Qed.
+End VacOde.
+
+(* intermediate statements, proved in C10_vacuum_Bt_{a,b,c}.v and C10_vacuum_ode_{a,b}.v and assembled in C10_vacuum.v *)
 Section Parts.
   Context {I : Type} (S : string -> I -> R).
   Notation G := (G S).
   (* the entries with a tangential field component: need the definitions of X2s, X2c, B20, G2 *)
+  Definition vacuum_Bt_a : Prop := forall i, G 0 0 2 i = G 0 2 0 i.
+  Definition vacuum_Bt_b : Prop := forall i, G 1 1 2 i = G 1 2 1 i /\ G 0 0 2 i + G 1 1 2 i + G 2 2 2 i = 0.
+  Definition vacuum_Bt_c : Prop := forall i, G 0 1 2 i = G 0 2 1 i /\ G 1 0 2 i = G 1 2 0 i.
+  Definition vacuum_ode_a : Prop := forall i, G 0 0 1 i = G 0 1 0 i /\ G 1 0 1 i = G 1 1 0 i.
+  Definition vacuum_ode_b : Prop := forall i, G 0 0 0 i + G 1 1 0 i + G 2 2 0 i = 0 /\ G 0 0 1 i + G 1 1 1 i + G 2 2 1 i = 0.
   Definition vacuum_Bt_part : Prop := forall i,
     G 0 0 2 i = G 0 2 0 i /\ G 0 1 2 i = G 0 2 1 i /\ G 1 0 2 i = G 1 2 0 i /\ G 1 1 2 i = G 1 2 1 i
     /\ G 0 0 2 i + G 1 1 2 i + G 2 2 2 i = 0.
